@@ -147,6 +147,7 @@ func (fm *Frame) IterateInputs(f func(any)) {
 	inputs := make(chan any)
 
 	wg.Add(2)
+	verifRes(verifResGo, 3)
 	go func() {
 		linesToChan(fm.InputFile(), inputs)
 		wg.Done()
